@@ -221,7 +221,7 @@ func queryCode(loc string) (code string, u *url.URL) {
 func TestProp(t *testing.T) {
 	env := vh.GetEnv()
 	rep := vh.NewReport("C09", "exploration")
-	rep.Rule("part A: strided enumeration of cookie-class{absent,garbage,other-key,code-key,truncated,genuine} x lifetime{past,future} x token-expiry{past,future} x refresh-token{present,absent} x validate-answer(13 classes: 200 valid, 200 negative/empty/malformed body, 400 revoked/other, 401, 403, 429, 500, 503, dropped) x refresh-answer(13 classes) x e-mail-class(9) x rule-kind(4) x provider{okta via NewAuthenticatorMux, google and cognito via NewAuthenticator+SetProvider} against /sign_in; part B: callback state-nonce/CSRF-cookie combinations (own, cross-browser, absent, altered, prefix either way, empty, malformed, never-issued, other authenticator's) x IdP token/userinfo answers x e-mail rule over two independent /start flows; part D (concurrent): groups of 2-3 simultaneous /sign_in requests on one authenticator whose access tokens (validate path) or refresh tokens (refresh path) are long JWT-like strings related by common prefix / common suffix / one middle byte / letter case / one a prefix of the other / unrelated, same or different e-mails, every live/revoked assignment and order; the first request's IdP answer is held until the others are in flight; part H (histories): 2-6 /sign_in visits of one browser that always presents the cookie the previous response re-issued, the IdP's answer flipping between visits, virtual gaps from {0,5s,30s,59s,2min,10min,61min}, first cookie minted with zero/past/future ValidDeadline and GracePeriodStart; every visit that ends in a code must show a confirming IdP call for that token in the log delta of that visit; part L (allow-list configurations): one Okta authenticator per rare-but-legal spelling of an AUTHORIZE_EMAIL_DOMAINS entry {plain, upper/mixed case, leading dot, *., leading @, trailing dot, padded left/right, TLD only, .TLD, tail fragment, empty / * / lone dot next to a real entry} resp. AUTHORIZE_EMAIL_ADDRESSES entry {plain, upper/mixed case, padded, *@domain, @domain, bare domain, trailing dot, empty / * next to a real one, local part only}, 1-3 entries each, x user class {exact, case variant, prefix look-alike (notD, evil-D, malice@), suffix look-alike (D.evil.example, Dx), sub-domain, entry as local part, the entry verbatim (+case variant), sibling (same TLD / other local part / +tag), unrelated, trailing dot, double @, degenerate (ends with @ / *, no @), non-ASCII look-alike, empty} x site {/sign_in with a live cookie on the validate or the refresh path, own-flow IdP callback}, the IdP always confirming: a code / a session only for e-mails the reference reader of the configured strings admits (strided, every cell at least once); part C: sequences of 3-10 sign-ins in virtual time (cookie re-sealing) across refreshes until the lifetime passes. distinct = the tuple of dimensions that matter for the case (irrelevant IdP answers are left out), counted only when the authenticator answered")
+	rep.Rule("part A: strided enumeration of cookie-class{absent,garbage,other-key,code-key,truncated,genuine} x lifetime{past,future} x token-expiry{past,future} x refresh-token{present,absent} x validate-answer(13 classes: 200 valid, 200 negative/empty/malformed body, 400 revoked/other, 401, 403, 429, 500, 503, dropped) x refresh-answer(13 classes) x e-mail-class(9) x rule-kind(4) x provider{okta via NewAuthenticatorMux, google and cognito via NewAuthenticator+SetProvider} against /sign_in; part B: callback state-nonce/CSRF-cookie combinations (own, cross-browser, absent, altered, prefix either way, empty, malformed, never-issued, other authenticator's) x IdP token/userinfo answers x e-mail rule over two independent /start flows; part D (concurrent): groups of 2-3 simultaneous /sign_in requests on one authenticator whose access tokens (validate path) or refresh tokens (refresh path) are long JWT-like strings related by common prefix / common suffix / one middle byte / letter case / one a prefix of the other / unrelated, same or different e-mails, every live/revoked assignment and order; the first request's IdP answer is held until the others are in flight; part H (histories): 2-6 /sign_in visits of one browser that always presents the cookie the previous response re-issued, the IdP's answer flipping between visits, virtual gaps from {0,5s,30s,59s,2min,10min,61min}, first cookie minted with zero/past/future ValidDeadline and GracePeriodStart; every visit that ends in a code must show a confirming IdP call for that token in the log delta of that visit; part B2 (duplicate CSRF cookies): own-flow callbacks that carry several cookies with the CSRF cookie's name (genuine/planted in either order, genuine twice, three cookies, another cookie in between, the second one in a second Cookie header line) with the state built on the genuine, a planted or a never-sent nonce: no session when the state's nonce is not the one /start issued to this browser (planted-first-and-equal-to-state falls under the recorded unsigned-double-submit class); part D2 (one session, simultaneous sign-ins): 2-4 simultaneous /sign_in requests presenting the same due-refresh cookie, the IdP holding its refresh answer (rotating the refresh token in 2 of 3 groups): all re-issued cookies and issued codes of the group carry the same access token, refresh token and - when one IdP call served the group - refresh deadline (+-2 s); part L (allow-list configurations): one Okta authenticator per rare-but-legal spelling of an AUTHORIZE_EMAIL_DOMAINS entry {plain, upper/mixed case, leading dot, *., leading @, trailing dot, padded left/right, TLD only, .TLD, tail fragment, empty / * / lone dot next to a real entry} resp. AUTHORIZE_EMAIL_ADDRESSES entry {plain, upper/mixed case, padded, *@domain, @domain, bare domain, trailing dot, empty / * next to a real one, local part only}, 1-3 entries each, x user class {exact, case variant, prefix look-alike (notD, evil-D, malice@), suffix look-alike (D.evil.example, Dx), sub-domain, entry as local part, the entry verbatim (+case variant), sibling (same TLD / other local part / +tag), unrelated, trailing dot, double @, degenerate (ends with @ / *, no @), non-ASCII look-alike, empty} x site {/sign_in with a live cookie on the validate or the refresh path, own-flow IdP callback}, the IdP always confirming: a code / a session only for e-mails the reference reader of the configured strings admits (strided, every cell at least once); part C: sequences of 3-10 sign-ins in virtual time (cookie re-sealing) across refreshes until the lifetime passes. distinct = the tuple of dimensions that matter for the case (irrelevant IdP answers are left out), counted only when the authenticator answered")
 	rep.Assume("the fake IdP answers exactly as scripted and logs every call; tokens are unique per case, so sso's request coalescing never merges two cases")
 	rep.Assume("ground truth 'IdP confirmed' = scripted positive answer to the provider's validation call (Okta introspect 200 {active:true}; Google tokeninfo / Cognito userInfo 200 describing the token; for the latter two a 200 with an error/empty body - Google: any unread garbage - is a counted don't-care) when no refresh is due, or a scripted well-formed 200 with a non-empty access token to the refresh grant when it is due and the session has a refresh token; a successful refresh counts as acceptance of the new token")
 	rep.Assume("concurrent groups: 'overlapped' is read off the fake IdP's own sequence numbers (the follower's call started before the first one's ended), never off the wall clock; a group that did not overlap is only not counted")
@@ -274,6 +274,22 @@ func TestProp(t *testing.T) {
 		t0 := time.Now()
 		runHistory(rep, env, stacks, only)
 		rep.Extra("wall_history_s", time.Since(t0).Seconds())
+	} else {
+		replaying = true
+	}
+	if only, skip := env.Only(streamCallbackDup); !skip {
+		replaying = replaying || only >= 0
+		t0 := time.Now()
+		runCallbackDup(rep, env, stacks[:nStacks/2], only) // the Okta authenticators
+		rep.Extra("wall_callback_dupcookie_s", time.Since(t0).Seconds())
+	} else {
+		replaying = true
+	}
+	if only, skip := env.Only(streamConcSame); !skip {
+		replaying = replaying || only >= 0
+		t0 := time.Now()
+		runConcSame(rep, env, stacks, only)
+		rep.Extra("wall_concurrent_same_session_s", time.Since(t0).Seconds())
 	} else {
 		replaying = true
 	}
@@ -345,6 +361,8 @@ func TestProp(t *testing.T) {
 			rep.Floor("concurrent_overlap_"+rel, 5)
 		}
 		allowlistFloors(rep)
+		callbackDupFloors(rep)
+		concSameFloors(rep)
 	}
 	if st := rep.Finish(); st == "violated" {
 		t.Fatalf("C09 violated")
